@@ -10,7 +10,7 @@ start, the replaced terminals processed so far lie under or left of `c` and the 
 namespace Nomt.Walker
 open Nomt Nomt.TriePos
 
-variable {Node VH : Type} [DecidableEq Node] [DecidableEq VH] (H : Hasher Node VH)
+variable {Node VH : Type} [DecidableEq Node] [DecidableEq VH] (H : Hasher Node VH) (D : Path → Prop)
 
 abbrev Step (VH : Type) := Path × Option (List (Key × VH))
 
@@ -25,14 +25,18 @@ structure ScriptOK (S S' : List (Key × VH)) (steps : List (Step VH)) : Prop whe
 
 /-- the store the walk starts from represents `S` -/
 def Rep0 (S : List (Key × VH)) (store0 : Store Node) : Prop :=
-  ∀ q, q.length ≤ 256 → Mean S q → store0 q = specNode H S q
+  ∀ q, q.length ≤ 256 → D q → Mean S q → store0 q = specNode H S q
+
+/-- every slot on the way to a terminal (and its sibling slot) is materialised -/
+def PathsIn (steps : List (Step VH)) : Prop :=
+  ∀ s ∈ steps, ∀ x, x <+: s.1 → x ≠ [] → D x ∧ D (sibPath x)
 
 /-- a sub-trie that branches away from every replaced terminal and is untouched is right for `S'` as well -/
 theorem clean_good {S S' : List (Key × VH)} {steps : List (Step VH)} (hso : ScriptOK S S' steps)
-    {store0 : Store Node} (hrep : Rep0 H S store0) (st : Store Node) (R : Path) (hR : R.length ≤ 256)
-    (hdiv : ∀ s ∈ steps, s.2.isSome = true → Diverge s.1 R) (hmean : Mean S R)
+    {store0 : Store Node} (hrep : Rep0 H D S store0) (st : Store Node) (R : Path) (hR : R.length ≤ 256)
+    (hdiv : ∀ s ∈ steps, s.2.isSome = true → Diverge s.1 R) (hmean : Mean S R) (hDR : D R)
     (hst : ∀ q, R <+: q → st q = store0 q) :
-    Good H S' st R ∧ SubOK H S' st R := by
+    Good H S' st R ∧ SubOK H D S' st R := by
   have hsub : ∀ q, R <+: q → q.length ≤ 256 → sub S' q = sub S q := by
     intro q hq hl
     apply hso.out q hl
@@ -43,10 +47,10 @@ theorem clean_good {S S' : List (Key × VH)} {steps : List (Step VH)} (hso : Scr
   constructor
   · show st R = _
     rw [hst R (List.prefix_refl _), hspec R (List.prefix_refl _) hR]
-    exact hrep R hR hmean
-  · intro r hpre hne hlen hm
+    exact hrep R hR hDR hmean
+  · intro r hpre hne hlen hD hm
     rw [hst r hpre, hspec r hpre hlen]
-    apply hrep r hlen
+    apply hrep r hlen hD
     rcases hm with h | h
     · exact Or.inl h
     · right
@@ -105,16 +109,17 @@ structure InvB (S S' : List (Key × VH)) (store0 : Store Node) (cfg : TWCfg Node
     (a : TW Node) : Prop where
   len : a.pos.length ≤ 256
   good : (cfg.top < a.pos.length ∨ cfg.hasParent = false) → Good H S' a.store a.pos
-  below : SubOK H S' a.store a.pos
+  below : SubOK H D S' a.store a.pos
   left : ∀ x, (x ++ [true]) <+: a.pos → cfg.top ≤ x.length →
-    Good H S' a.store (x ++ [false]) ∧ SubOK H S' a.store (x ++ [false])
+    Good H S' a.store (x ++ [false]) ∧ SubOK H D S' a.store (x ++ [false])
   right : ∀ q, LeftOf a.pos q → a.store q = store0 q
   doneP : ∀ s ∈ done, s.2.isSome = true → (a.pos <+: s.1 ∨ LeftOf s.1 a.pos)
   todoP : ∀ s ∈ todo, LeftOf a.pos s.1
   anc : ∀ x, x <+: a.pos → x ≠ a.pos → 2 ≤ (sub S x).length
-  logok : ∀ e ∈ a.log, LogOK H S' e
+  logok : ∀ e ∈ a.log, LogOK H D S' e
   cprok : ∀ e ∈ a.cpr, e.2 = specNode H S' e.1 ∧ e.1.length = cfg.top
   cprnil : cfg.hasParent = false → a.cpr = []
+  onpath : ∀ x, x <+: a.pos → x ≠ [] → D x ∧ D (sibPath x)
 
 /-- every remaining terminal branches right of the walker's position no deeper than the next one does -/
 theorem todo_branch {S S' : List (Key × VH)} {done todo : List (Step VH)} {s : Step VH}
@@ -131,9 +136,9 @@ theorem todo_branch {S S' : List (Key × VH)} {done todo : List (Step VH)} {s : 
 
 theorem invB_compact (hs : H.Sound) {S S' : List (Key × VH)} (hS' : KeysOK S')
     {done todo : List (Step VH)} {s : Step VH} (hso : ScriptOK S S' (done ++ s :: todo))
-    {store0 : Store Node} (hrep : Rep0 H S store0) (cfg : TWCfg Node) (a : TW Node)
-    (hinv : InvB H S S' store0 cfg done (s :: todo) a) :
-    InvB H S S' store0 cfg done (s :: todo) (a.compactUp H cfg (some s.1)) ∧
+    {store0 : Store Node} (hrep : Rep0 H D S store0) (cfg : TWCfg Node) (a : TW Node)
+    (hinv : InvB H D S S' store0 cfg done (s :: todo) a) :
+    InvB H D S S' store0 cfg done (s :: todo) (a.compactUp H cfg (some s.1)) ∧
     (a.compactUp H cfg (some s.1)).pos.length ≤ max (sharedBits (a.compactUp H cfg (some s.1)).pos s.1 + 1) cfg.top := by
   obtain ⟨p, w, r, hc, ht⟩ := hinv.todoP s (List.mem_cons_self ..)
   unfold TW.compactUp
@@ -161,7 +166,7 @@ theorem invB_compact (hs : H.Sound) {S S' : List (Key × VH)} (hS' : KeysOK S')
     have hpl : (a.pos.take L).length = L := by rw [List.length_take]; omega
     have hpre : (a.pos.take L) <+: a.pos := List.take_prefix _ _
     have h256 : a.pos.length ≤ 256 := hinv.len
-    have hspec := tw_compactLoop_spec H hs hS' cfg (a.pos.length - L) a (a.pos.take L) (a.pos.drop L) hsplit
+    have hspec := tw_compactLoop_spec H D hs hS' cfg (a.pos.length - L) a (a.pos.take L) (a.pos.drop L) hsplit
       (by rw [List.length_drop]) (by rw [hpl]; omega) (by rw [← hsplit]; exact h256)
       (by rw [← hsplit]; exact hinv.good (Or.inl htop)) (by rw [← hsplit]; exact hinv.below)
       (by
@@ -179,7 +184,7 @@ theorem invB_compact (hs : H.Sound) {S S' : List (Key × VH)} (hS' : KeysOK S')
           have hxlen : (a.pos.take L ++ s1 ++ [true]).length ≤ 256 := by
             have := hxc.length_le
             simp at this ⊢; omega
-          apply clean_good H hso hrep a.store _ hxlen
+          apply clean_good H D hso hrep a.store _ hxlen
           · intro s' hs' hsome
             rcases List.mem_append.mp hs' with hd | ht'
             · rcases hinv.doneP s' hd hsome with h | h
@@ -208,6 +213,8 @@ theorem invB_compact (hs : H.Sound) {S S' : List (Key × VH)} (hS' : KeysOK S')
               have h2 := congrArg List.length e
               simp only [List.length_append, List.length_singleton] at h1 h2
               omega
+          · have := (hinv.onpath _ hxc (by simp)).2
+            rwa [sibPath_snoc] at this
           · intro q hq
             exact hinv.right q (leftOf_of_branch hxc hq))
     obtain ⟨hP, hSub, hFr, hLog, hLogMono, hZero, hPos⟩ := hspec
@@ -241,8 +248,8 @@ theorem invB_compact (hs : H.Sound) {S S' : List (Key × VH)} (hS' : KeysOK S')
         constructor
         · show _ = _
           rw [hFr _ (hnu _ (List.prefix_refl _))]; exact hg
-        · intro q hq hne hl hm
-          rw [hFr _ (hnu _ hq)]; exact hsu q hq hne hl hm
+        · intro q hq hne hl hD hm
+          rw [hFr _ (hnu _ hq)]; exact hsu q hq hne hl hD hm
       · intro q hq
         rw [hP] at hq
         rw [hFr q (hnotunder q hq)]
@@ -287,6 +294,9 @@ theorem invB_compact (hs : H.Sound) {S S' : List (Key × VH)} (hS' : KeysOK S')
         · have := hPos (by omega)
           rw [if_neg (by intro h; rw [hpar] at h; exact absurd h.2 (by simp))] at this
           rw [this.1]; exact hinv.cprnil hpar
+      · intro x hx hne
+        rw [hP] at hx
+        exact hinv.onpath x (List.IsPrefix.trans hx hpre) hne
     · rw [hP, hpl]
       have : sharedBits (a.pos.take L) s.1 = p.length := by
         have e : a.pos.take L = p ++ false :: (w.take (L - (p.length + 1))) := by
@@ -325,24 +335,26 @@ theorem anc_of_terminal {S : List (Key × VH)} (hS : KeysOK S) (t x : Path) (ht 
 structure PreRep (S S' : List (Key × VH)) (store0 : Store Node) (cfg : TWCfg Node) (done : List (Step VH))
     (a : TW Node) (t : Path) : Prop where
   left : ∀ x, (x ++ [true]) <+: t → cfg.top ≤ x.length →
-    Good H S' a.store (x ++ [false]) ∧ SubOK H S' a.store (x ++ [false])
+    Good H S' a.store (x ++ [false]) ∧ SubOK H D S' a.store (x ++ [false])
   right : ∀ q, LeftOf t q → a.store q = store0 q
   doneP : ∀ s ∈ done, s.2.isSome = true → LeftOf s.1 t
-  logok : ∀ e ∈ a.log, LogOK H S' e
+  logok : ∀ e ∈ a.log, LogOK H D S' e
   cprok : ∀ e ∈ a.cpr, e.2 = specNode H S' e.1 ∧ e.1.length = cfg.top
   cprnil : cfg.hasParent = false → a.cpr = []
+  onpath : ∀ x, x <+: t → x ≠ [] → D x ∧ D (sibPath x)
 
 /-- a left sibling on the way to the next terminal that nothing has touched yet -/
 theorem fresh_left_sibling {S S' : List (Key × VH)} (hS : KeysOK S) {done todo : List (Step VH)} {s : Step VH}
-    (hso : ScriptOK S S' (done ++ s :: todo)) {store0 : Store Node} (hrep : Rep0 H S store0) (st : Store Node)
+    (hso : ScriptOK S S' (done ++ s :: todo)) (hDp : PathsIn D (done ++ s :: todo))
+    {store0 : Store Node} (hrep : Rep0 H D S store0) (st : Store Node)
     (x : Path) (hx : (x ++ [true]) <+: s.1)
     (hdone : ∀ s' ∈ done, s'.2.isSome = true → LeftOf s'.1 (x ++ [false]))
     (hst : ∀ q, (x ++ [false]) <+: q → st q = store0 q) :
-    Good H S' st (x ++ [false]) ∧ SubOK H S' st (x ++ [false]) := by
+    Good H S' st (x ++ [false]) ∧ SubOK H D S' st (x ++ [false]) := by
   have hsmem : s ∈ done ++ s :: todo := by simp
   have hlen := hso.len s hsmem
   have hLt : LeftOf (x ++ [false]) s.1 := leftOf_of_branch (List.prefix_refl _) hx
-  apply clean_good H hso hrep st
+  apply clean_good H D hso hrep st
   · have := hx.length_le
     simp at this ⊢; omega
   · intro s' hs' hsome
@@ -361,13 +373,16 @@ theorem fresh_left_sibling {S S' : List (Key × VH)} (hS : KeysOK S) {done todo 
     have := hx.length_le
     simp at this
     omega
+  · have := (hDp s hsmem _ hx (by simp)).2
+    rwa [sibPath_snoc] at this
   · exact hst
 
 theorem preRep_of_invB {S S' : List (Key × VH)} (hS : KeysOK S) {done todo : List (Step VH)} {s : Step VH}
-    (hso : ScriptOK S S' (done ++ s :: todo)) {store0 : Store Node} (hrep : Rep0 H S store0) (cfg : TWCfg Node)
-    (a : TW Node) (hinv : InvB H S S' store0 cfg done (s :: todo) a)
+    (hso : ScriptOK S S' (done ++ s :: todo)) (hDp : PathsIn D (done ++ s :: todo))
+    {store0 : Store Node} (hrep : Rep0 H D S store0) (cfg : TWCfg Node)
+    (a : TW Node) (hinv : InvB H D S S' store0 cfg done (s :: todo) a)
     (hcomp : a.pos.length ≤ max (sharedBits a.pos s.1 + 1) cfg.top) :
-    PreRep H S S' store0 cfg done a s.1 := by
+    PreRep H D S S' store0 cfg done a s.1 := by
   have hL : LeftOf a.pos s.1 := hinv.todoP s (List.mem_cons_self ..)
   obtain ⟨p, w, r, hc, ht⟩ := id hL
   have hsb : sharedBits a.pos s.1 = p.length := by rw [hc, ht]; exact sharedBits_leftOf p w r
@@ -377,7 +392,7 @@ theorem preRep_of_invB {S S' : List (Key × VH)} (hS : KeysOK S) {done todo : Li
     rcases hinv.doneP s' hs' hsome with h | h
     · exact leftOf_extend_left hL h
     · exact leftOf_trans h hL
-  refine ⟨?_, ?_, hdoneL, hinv.logok, hinv.cprok, hinv.cprnil⟩
+  refine ⟨?_, ?_, hdoneL, hinv.logok, hinv.cprok, hinv.cprnil, hDp s (by simp)⟩
   · intro x hx hxt
     obtain ⟨u, hu⟩ := hx
     have h : p ++ true :: r = x ++ true :: u := by rw [← ht, ← hu]; simp
@@ -396,7 +411,7 @@ theorem preRep_of_invB {S S' : List (Key × VH)} (hS : KeysOK S) {done todo : Li
       rw [← hpos]
       exact ⟨hinv.good (Or.inl (by rw [hpos]; simp; omega)), hinv.below⟩
     · -- below the branch point: untouched so far
-      apply fresh_left_sibling H hS hso hrep a.store x ⟨u, hu⟩
+      apply fresh_left_sibling H D hS hso hDp hrep a.store x ⟨u, hu⟩
       · intro s' hs' hsome
         have hxL : LeftOf a.pos (x ++ [false]) := by
           rw [hc]
@@ -412,13 +427,14 @@ theorem preRep_of_invB {S S' : List (Key × VH)} (hS : KeysOK S) {done todo : Li
     exact hinv.right q (leftOf_trans hL hq)
 
 theorem preRep_init {S S' : List (Key × VH)} (hS : KeysOK S) {done todo : List (Step VH)} {s : Step VH}
-    (hso : ScriptOK S S' (done ++ s :: todo)) {store0 : Store Node} (hrep : Rep0 H S store0) (cfg : TWCfg Node)
+    (hso : ScriptOK S S' (done ++ s :: todo)) (hDp : PathsIn D (done ++ s :: todo))
+    {store0 : Store Node} (hrep : Rep0 H D S store0) (cfg : TWCfg Node)
     (a : TW Node) (hst : a.store = store0) (hlog : a.log = []) (hcpr : a.cpr = [])
     (hdone : ∀ s' ∈ done, s'.2.isSome = false) :
-    PreRep H S S' store0 cfg done a s.1 := by
-  refine ⟨?_, ?_, ?_, ?_, ?_, ?_⟩
+    PreRep H D S S' store0 cfg done a s.1 := by
+  refine ⟨?_, ?_, ?_, ?_, ?_, ?_, hDp s (by simp)⟩
   · intro x hx _
-    apply fresh_left_sibling H hS hso hrep a.store x hx
+    apply fresh_left_sibling H D hS hso hDp hrep a.store x hx
     · intro s' hs' hsome; rw [hdone s' hs'] at hsome; cases hsome
     · intro q _; rw [hst]
   · intro q _; rw [hst]
@@ -429,14 +445,14 @@ theorem preRep_init {S S' : List (Key × VH)} (hS : KeysOK S) {done todo : List 
 
 theorem invB_replace (hs : H.Sound) {S S' : List (Key × VH)} (hS : KeysOK S) (hS' : KeysOK S')
     {done todo : List (Step VH)} {s : Step VH} (hso : ScriptOK S S' (done ++ s :: todo))
-    {store0 : Store Node} (cfg : TWCfg Node) (a : TW Node) (hpre : PreRep H S S' store0 cfg done a s.1) :
-    InvB H S S' store0 cfg (done ++ [s]) todo
+    {store0 : Store Node} (cfg : TWCfg Node) (a : TW Node) (hpre : PreRep H D S S' store0 cfg done a s.1) :
+    InvB H D S S' store0 cfg (done ++ [s]) todo
       (({ a with pos := s.1 } : TW Node).replaceTerminal H cfg (sub S' s.1)) := by
   have hsmem : s ∈ done ++ s :: todo := by simp
   have hlen := hso.len s hsmem
-  obtain ⟨r1, r2, r3, r4, r5, r6, r7⟩ := tw_replace_spec H hs hS' cfg ({ a with pos := s.1 } : TW Node) hlen
+  obtain ⟨r1, r2, r3, r4, r5, r6, r7⟩ := tw_replace_spec H D hs hS' cfg ({ a with pos := s.1 } : TW Node) hlen
   simp only at r1 r2 r3 r4 r5 r6 r7
-  refine ⟨by rw [r1]; exact hlen, fun _ => by rw [r1]; exact r2, by rw [r1]; exact r3, ?_, ?_, ?_, ?_, ?_, ?_, ?_, ?_⟩
+  refine ⟨by rw [r1]; exact hlen, fun _ => by rw [r1]; exact r2, by rw [r1]; exact r3, ?_, ?_, ?_, ?_, ?_, ?_, ?_, ?_, by rw [r1]; exact hpre.onpath⟩
   · intro x hx hxt
     rw [r1] at hx
     obtain ⟨hg, hsu⟩ := hpre.left x hx hxt
@@ -449,8 +465,8 @@ theorem invB_replace (hs : H.Sound) {S S' : List (Key × VH)} (hS : KeysOK S) (h
     constructor
     · show _ = _
       rw [r4 _ (hnu _ (List.prefix_refl _))]; exact hg
-    · intro q hq hne hl hm
-      rw [r4 _ (hnu _ hq)]; exact hsu q hq hne hl hm
+    · intro q hq hne hl hD hm
+      rw [r4 _ (hnu _ hq)]; exact hsu q hq hne hl hD hm
   · intro q hq
     rw [r1] at hq
     rw [r4 q (leftOf_not_prefix hq).1]
